@@ -1,7 +1,7 @@
 PROP = dict(
     module="M3d.Props.C12",
-    gen=["McTable", "C2FMargin"],
-    tie_modules=["M3d.Lemmas.C2FMarginTie"],
+    gen=["McTable", "C2FMargin", "Kernels"],
+    tie_modules=["M3d.Lemmas.C2FMarginTie", "M3d.Lemmas.KernelsTiePartition"],
     corr=dict(quick=600, thorough=1500),
     corr_theorems=(
         "mc/ms kinds: M3d.C12.mesh_indep_of_workers_and_filter, ms_mesh_indep_of_workers_and_filter, "
@@ -36,6 +36,10 @@ PROP = dict(
         "sequential model, so any dependence on the setting is a disagreement whose replay names the setting. distinct = distinct op lines"
     ),
     trusted=[
+        "regenerated, not hand-written: lean/M3d/Gen/Kernels.lean (Go->Lean translator harness/hlib/go2lean) contains mcBlock.Split/"
+        "Volume (model3d/mc.go) and msBlock.Split/Area (model2d/marching.go) with their run-time axis index; "
+        "M3d.KernelsTie.Partition.split_eq/split2_eq/volume_eq/area_eq re-prove against the current source that they are Block.split/"
+        "volume and Block2.split/area of the partition theorems (well-formed blocks)",
         "regenerated, not modelled: rows of mcLookupTable()/msLookupTable() (Gen/McTable.lean, same generator as C01); the theorems cite rows 0/255 (0/15) being empty by `decide`",
         "modelled, not verified: the worker pool as 'any schedule' (any split of the block queue among workers, any merge order) - goroutine interleavings "
         "enter only through which worker receives which block and the order of AddMesh; absence of data races is C13",
